@@ -496,7 +496,10 @@ class CheckedCoverageInstrumentation(python3_11.CheckedCoverageInstrumentation):
                 InstrumentationConstantLoad(value=instr.lineno),
                 InstrumentationConstantLoad(value=instr_original_index),
                 InstrumentationConstantLoad(value=None),
-                InstrumentationStackValue.FIRST,
+                # The container is below the two bounds of a BINARY_SLICE
+                InstrumentationStackValue.THIRD
+                if instr.name == "BINARY_SLICE"
+                else InstrumentationStackValue.FIRST,
             ),
         )
 
@@ -512,11 +515,11 @@ class CheckedCoverageInstrumentation(python3_11.CheckedCoverageInstrumentation):
                     )
                 )
             case "BINARY_SLICE":
-                # Instrumentation mostly after the original instruction
-                node.basic_block[override(instr_index)] = (
-                    self.instructions_generator.generate_overriding_instructions(
-                        InstrumentationSetupAction.COPY_THIRD_SHIFT_DOWN_THREE,
-                        instr,
+                # Instrumentation before the original instruction, whose result must
+                # stay on top of the stack
+                node.basic_block[before(instr_index)] = (
+                    self.instructions_generator.generate_instructions(
+                        InstrumentationSetupAction.NO_ACTION,
                         method_call,
                         instr.lineno,
                     )
